@@ -30,6 +30,22 @@ def run_case(rng, tier, case):
     for a in spec['assets']:
         if a['type'] == 'OrderBook':
             a['full_exec'] = False
+    mk = [a for a in spec['assets'] if a['type'] == 'SimpleContract' and a['name'].startswith('mkt') and isinstance(a.get('max_cap'), float) and a['max_cap'] > 0
+          and not a.get('start') and not a.get('end')]
+    if mk and rng.random() < 0.3:
+        # a load (or a surplus) behind a lossy link: its nodal price is the market price divided (multiplied) by the efficiency and so lies
+        # OUTSIDE the range of all given prices on many steps
+        m0 = mk[int(rng.integers(len(mk)))]
+        eff = float(gen.pick(rng, [0.5, 0.8, 0.25]))
+        q = round(0.05 * m0['max_cap'], 6)
+        if rng.random() < 0.6:
+            spec['assets'] += [{'type': 'Transport', 'name': 'amp_link', 'nodes': [m0['nodes'][0], 'amp'], 'min_cap': 0.0, 'max_cap': m0['max_cap'], 'efficiency': eff},
+                               {'type': 'SimpleContract', 'name': 'amp_load', 'nodes': ['amp'], 'min_cap': -q, 'max_cap': -q}]
+            case.feature('load_behind_lossy_link')
+        else:
+            spec['assets'] += [{'type': 'Transport', 'name': 'amp_link', 'nodes': ['amp', m0['nodes'][0]], 'min_cap': 0.0, 'max_cap': m0['max_cap'], 'efficiency': eff},
+                               {'type': 'SimpleContract', 'name': 'amp_src', 'nodes': ['amp'], 'min_cap': q, 'max_cap': q}]
+            case.feature('surplus_behind_lossy_link')
     split = gen.pick(rng, ['d', '12h', '6h', '8h']) if want_split else None
     for t in gen.asset_types(spec):
         case.feature('type:' + t)
@@ -113,6 +129,21 @@ def run_case(rng, tier, case):
         for q in (pairs[int(np.nanargmax(pv))], pairs[int(np.nanargmin(pv))]):
             if q not in sel:
                 sel.append(q)
+    # plus, per problem, the nodal rows where an independent LP solver sees the largest and the smallest marginal value (guides the sampling
+    # only: the verdict below rests on re-optimisation with the real code, never on these marginals)
+    extra = 0
+    for k, op in enumerate(ops):
+        mg = solve.lp_row_marginals(op)
+        if mg is None:
+            case.event('independent_marginals_unavailable'); continue
+        mine = [q for q in pairs if q[0] == k and np.isfinite(mg[q[1]])]
+        if not mine:
+            continue
+        vals = np.array([mg[q[1]] for q in mine])
+        for q in (mine[int(np.argmax(vals))], mine[int(np.argmin(vals))]):
+            if q not in sel and extra < 4:
+                sel.append(q); extra += 1
+    case.stats['pairs_from_independent_marginals'] += extra
     nonvac = 0
     import eaopack.optimization as EO
     for (k, row, t, n) in sel:
